@@ -978,7 +978,9 @@ impl MqttClientImpl {
         debug!("client impl transition_to_state - old state: {}, new_state: {}", old_state, new_state);
 
         if new_state == ClientImplState::Connected {
-            let establishment_timeout = self.last_start_connect_time.unwrap() + self.connect_timeout;
+            // a connect timeout too large to be represented as a point in time is effectively "no timeout"
+            let connect_start_time = self.last_start_connect_time.unwrap();
+            let establishment_timeout = connect_start_time.checked_add(self.connect_timeout).unwrap_or(connect_start_time + Duration::from_secs(u32::MAX as u64));
             let mut connection_opened_context = NetworkEventContext {
                 event: NetworkEvent::ConnectionOpened(ConnectionOpenedContext{
                     establishment_timeout,
